@@ -117,7 +117,7 @@ func cmdCheck(argv []string) int {
 		if o.tier == "thorough" {
 			o.timeout = 120
 		} else {
-			o.timeout = 30
+			o.timeout = 40
 		}
 	}
 	return runCheck(o)
